@@ -63,6 +63,16 @@ let () =
         let kf = false in   (* no recorded class is left *)
         List [of_outcome of_str o; of_bool kf; of_bool (M.c15_utf8 n)]
     | _ -> failwith "c15-naming: bad case");
+  Registry.register "walker" (fun s ->
+    (* (emit <emit_to> <n>) | (attr <leading> (seg ...)) | (param (seg ...)) *)
+    match list s with
+    | [Atom "emit"; et; n] ->
+        of_outcome (of_opt (of_pair of_nat of_nat)) (M.c15_emit_select (bool_ et) (nat_ n))
+    | [Atom "attr"; lc; segs] ->
+        of_outcome of_bool (M.c15_attr_is_command (bool_ lc) (list_ str_ segs))
+    | [Atom "param"; segs] ->
+        of_outcome of_bool (M.c15_tauri_param (list_ str_ segs))
+    | _ -> failwith "c15-walker: bad case");
   Registry.register "kf" (fun s ->
     (* (kind text): class predicates, used on the inventory of a project-level case *)
     match list s with
